@@ -170,6 +170,7 @@ const (
 	YEntry  = 3
 	YExit   = 4
 	YLock   = 5
+	YAtomic = 6
 )
 
 // Solo prepares a single-client run with the given step cap and returns the client.
@@ -356,6 +357,28 @@ func Block() bool {
 	return true
 }
 
+// SwitchAway hands the processor to another runnable client, if there is one:
+// what a client does while it waits for something that only another client
+// can bring about (a channel operation that cannot proceed yet).
+//
+//go:norace
+func SwitchAway() {
+	c := cur
+	if c == nil || cfg.Strategy == StratNone {
+		return
+	}
+	yields++
+	others := runnable(c)
+	if len(others) == 0 {
+		return
+	}
+	next := highest(c)
+	if cfg.Strategy == StratRandom || next == nil {
+		next = others[Choose(len(others))]
+	}
+	switchTo(c, next)
+}
+
 // UnblockAll marks every blocked client runnable again (they re-test their
 // condition when scheduled).
 //
@@ -441,6 +464,9 @@ func finish(c *Client) {
 	c.done = true
 	release(c.tagCell)
 	// wake blocked clients: their condition may hold now
+	for _, o := range clients {
+		o.blocked = false
+	}
 	next := highest(c)
 	if cfg.Strategy == StratRandom {
 		if r := runnable(c); len(r) > 0 {
